@@ -54,6 +54,9 @@ func (e *RealEnv) Point(name string) *k256.Point {
 	return k256.NewCurve().ScalarBaseMul(e.scalarOf(e.value("in:" + name)))
 }
 func (e *RealEnv) Const(v *big.Int) *k256.Scalar { return e.scalarOf(v) }
+func (e *RealEnv) Drawn(reader string, off int) *k256.Scalar {
+	return e.scalarOf(e.value(fmt.Sprintf("rnd:%s@%d", reader, off)))
+}
 func (e *RealEnv) Reader(name string) io.Reader {
 	if r, ok := e.readers[name]; ok {
 		return r
@@ -86,6 +89,7 @@ func (e *RealEnv) Check(id string, c bool, msg string) bool {
 func (e *RealEnv) Reach(string)    {}
 func (e *RealEnv) SetActor(string) {}
 func (e *RealEnv) Symbolic() bool  { return false }
+func (e *RealEnv) AssumeDrawsNonZero() {}
 
 type realAbort struct{ why string }
 
